@@ -82,6 +82,9 @@ PROPS = {
             {"test": "TestC09VT", "variant": "vt", "shrinktime": "100000h", "confirm_env": {"VERIF_REALTIME": "1"},
              "quick": {"checks": 600, "shards": 8, "timeout": 400},
              "thorough": {"checks": 3000, "shards": 16, "timeout": 2400}},
+            {"test": "TestC09Raw", "variant": "std",
+             "quick": {"checks": 150, "shards": 4, "timeout": 400},
+             "thorough": {"checks": 4000, "shards": 8, "timeout": 2400}},
             {"test": "TestC09RT", "variant": "std",
              "quick": {"checks": 2, "shards": 6, "timeout": 400},
              "thorough": {"checks": 12, "shards": 12, "timeout": 2400}},
